@@ -38,7 +38,7 @@ def run(m, chk):
         "Static discharge of structural clauses of C14: knot_clean / degree_clean repeat the tolerance-guarded removal until it is refused (shrink-until-refused loop, only ValueError swallowed), for every "
         "interior knot; clean calls both on every path; the tolerance reaches every gate through every call site (ARG-FLOW); the gate itself (C05) holds. Minimality, idempotence and uniqueness are not decided."
     )
-    chk.decides = ["NONE-DEFAULT", "DEHOMOG-PAIR (points divided by a list of weights are stored with exactly those weights)", "ARG-RANGE (degree_decrease refuses no times in 1..degree before trying)", "LOOP-ACCUMULATE (the error handed to the gate is not overwritten per component in a loop)", "MEMO-KEY (no function on the path is memoised by the value of numbers / knot vectors)", "UNTIL-REFUSED", "ONLY-VALUEERROR", "ALL-KNOTS", "clean calls both", "ARG-FLOW(tolerance)", "GATE-TOL", "N", "WEIGHT-HOMOG (the fit behind every removal keeps rational control points of degree 0 in the weights)"]
+    chk.decides = ["NODES-OF-NEW (the interpolation nodes handed to update() are the knots of the new knot vector, taken after its last change)", "NONE-DEFAULT", "DEHOMOG-PAIR (points divided by a list of weights are stored with exactly those weights)", "ARG-RANGE (degree_decrease refuses no times in 1..degree before trying)", "LOOP-ACCUMULATE (the error handed to the gate is not overwritten per component in a loop)", "MEMO-KEY (no function on the path is memoised by the value of numbers / knot vectors)", "UNTIL-REFUSED", "ONLY-VALUEERROR", "ALL-KNOTS", "clean calls both", "ARG-FLOW(tolerance)", "GATE-TOL", "N", "WEIGHT-HOMOG (the fit behind every removal keeps rational control points of degree 0 in the weights)"]
     chk.not_decided = ["minimality / uniqueness of the cleaned representation", "idempotence as values"]
     until_refused(r, chk, C + "knot_clean", "knot_remove")
     until_refused(r, chk, C + "degree_clean", "degree_decrease")
@@ -69,6 +69,9 @@ def run(m, chk):
     arg_flow(r, chk, "ARG-FLOW", C + "degree_clean", ".degree_decrease", "tolerance", ["tolerance"])
     arg_flow(r, chk, "ARG-FLOW", C + "knot_remove", ".update", "tolerance", ["tolerance"])
     arg_flow(r, chk, "ARG-FLOW", C + "degree_decrease", ".update", "tolerance", ["tolerance"])
+    from .extra import nodes_of_new
+
+    nodes_of_new(r, chk, [C + "knot_remove", C + "degree_decrease"])
     tolerance_gate(r, chk)
     rule_n(r, chk)
     from .extra import memo_key
